@@ -22,17 +22,24 @@ type Error struct {
 	OrigError error
 }
 
+// updateFromTokenIfNeeded completes an error that carries no position with the
+// position of t. Token, Line and Column belong together: an error that already has
+// a position keeps it and is not given the token of another place, and an error that
+// names no source is given the one t stands in.
 func (e *Error) updateFromTokenIfNeeded(template *Template, t *Token) *Error {
 	if e.Template == nil {
 		e.Template = template
 	}
 
-	if e.Token == nil {
-		e.Token = t
-		if e.Line <= 0 {
-			e.Line = t.Line
-			e.Column = t.Col
-		}
+	if t == nil || e.Token != nil || e.Line > 0 {
+		return e
+	}
+
+	e.Token = t
+	e.Line = t.Line
+	e.Column = t.Col
+	if e.Filename == "" {
+		e.Filename = t.Filename
 	}
 
 	return e
